@@ -14,7 +14,7 @@ RULE = ('exhaustive: every shape of rank 1..R with extents 1..E (quick R=E=3, th
         '(all-positive, all-negative, mixed-sign + shuffled order) and None x keepdims false/true (compile-time True/False, run-time bool, '
         'argument omitted) x initial absent/present x axis kind int/vector, through view::reduce with the order-revealing functor '
         'f(a,b)=31a+b on uint32 (data[k]=k+1); view::accumulate on every axis; index::remove_dims / reduction_slices directly; '
-        'named routines against NumPy on integer-valued data. non-trivial = some fold combines >= 2 elements')
+        'named routines against NumPy on integer-valued data; plus seeded random shapes of rank 1..5 / extents 1..7. non-trivial = some fold combines >= 2 elements')
 EXHAUSTIVE = {'quick': True, 'thorough': True}
 ANCHORS = {
     'NmVerif.Reduce.normalizeAxis/normalizeAxes': 'index::normalize_axis',
@@ -427,10 +427,46 @@ def gen_float(tier, rng):
                    oracle='ok shape=%s data=%s' % (fmt(oshape), ','.join(repr(float(x)) for x in ores)), tags=['float-fold-order', 'api=' + api])
 
 
+def gen_random_large(tier, rng):
+    """sampled larger shapes (rank 1..5, extents 1..7), random axis subsets / signs / order, VERIF_SEED-dependent"""
+    nrand = 150 if tier == 'quick' else 1500
+    for t in range(nrand):
+        nd = rng.randint(1, 5)
+        s = [rng.randint(1, 7) for _ in range(nd)]
+        while prod(s) > 3000:
+            s[rng.randrange(nd)] = 1
+        n = prod(s)
+        data = list(range(1, n + 1))
+        sub = rng.sample(range(nd), rng.randint(1, nd))
+        axes = [k - nd if rng.random() < 0.5 else k for k in sub]
+        keep = rng.randint(0, 1)
+        init = rng.choice([None, 7])
+        kd = rng.choice(['ct', 'rt'])
+        oshape, ores = ref_reduce(f31, data, s, axes, bool(keep), init)
+        yield Case('reduce op=f31 shape=%s axis=%s keepdims=%d init=%s kd=%s ax=vec' % (fmt(s), fmt(axes), keep, init, kd), 'h_c08',
+                   oracle=ans(oshape, ores), nontrivial=any(s[k] > 1 for k in sub), tags=['reduce', 'random-large', 'rank=%d' % nd])
+        ax = rng.randrange(nd)
+        oshape, ores = ref_accumulate(f31, data, s, ax)
+        yield Case('accumulate op=f31 shape=%s axis=%d' % (fmt(s), ax), 'h_c08', oracle=ans(oshape, ores), nontrivial=s[ax] > 1,
+                   tags=['accumulate', 'random-large', 'rank=%d' % nd])
+        if t % 10 == 0:
+            oshape, ores = ref_reduce(f31, data, s, None, bool(keep), init)
+            yield Case('reduce op=f31 shape=%s axis=None keepdims=%d init=%s kd=%s' % (fmt(s), keep, init, kd), 'h_c08',
+                       oracle=ans(oshape, ores), nontrivial=n > 1, tags=['reduce', 'random-large', 'axes=None'])
+
+
 _gen_f31 = gen
 
 
+def gen_witnesses():
+    """the witnesses of known/C08.json, re-executed on every run"""
+    yield Case('accumulate op=f31 shape=2 axis=-1', 'h_c08', dom=False, oracle='ok shape=2 data=1,33', tags=['witness'])
+    yield Case('trace api=view et=i32 shape=2,3 offset=-1 axis1=0 axis2=1 data=1,2,3,4,5,6', 'h_c08f3', model=False, dom=False,
+               oracle='ok shape=[] data=4.0', cmp=close_cmp(1e-12, 1e-12), tags=['witness'])
+
+
 def gen(tier, rng):
+    yield from gen_witnesses()
     k = 0
     for c in _gen_f31(tier, rng):
         yield c
@@ -440,3 +476,4 @@ def gen(tier, rng):
             yield Case(c.req, 'h_c08_san', dom=c.dom, oracle=c.oracle, model=False, nontrivial=c.nontrivial, tags=['sanitizer'])
     yield from gen_ufuncs(tier, rng)
     yield from gen_float(tier, rng)
+    yield from gen_random_large(tier, rng)
